@@ -24,7 +24,9 @@ H_TPL = ("template <typename T> struct Box { T t; };\ntemplate <typename> struct
 H_BF1 = "struct B1 { unsigned char a:3; unsigned char b:5; unsigned char c:2; };\n"
 H_BF2 = "struct Reg { unsigned mode:3; unsigned count:10; unsigned addr:16; };\nstruct R2 { unsigned long long lo:40; unsigned hi:9; };\n"
 H_STATIC = ("static inline int sq(int x) { return x * x; }\nstatic int tw(int x) { return 2 * x; }\n#include \"c11_dep.h\"\n"
-            "#define FALLBACK (M_BASE + 1)\n#define M_BASE 41\n")
+            "#define FALLBACK (M_BASE + 1)\n#define M_BASE 41\n"
+            # what the fallback evaluator is asked may mention the file it is evaluated in: the scratch file's name is not an input
+            "#define FILE_LEN ((int)sizeof(__FILE__))\n#define FILE_TAIL ((int)__FILE__[sizeof(__FILE__) - 4])\n")
 H_ABI = "void get_a(void); void get_b(int); void set_a(int); void other(void); int getset(void);\n"
 H_REFS = "struct R { int &r; const double &d; char c; R(int &a, const double &b); };\nstruct HR { R *p; R &q; int z; };\nint &pick(int &a, int &b);\n"
 H_ENUM = "enum E { A, B = 5 }; typedef enum E E_t; struct WE { enum E e; int arr[40]; float f; };\nunion UN { int i; float f; };\n"
